@@ -706,7 +706,7 @@ func pendingFor(r *hx.Rand, data []byte) []int64 {
 
 func main() {
 	c := hx.Start("C23", "Run.Check_C23", 60)
-	h := &H{c: c, coqLeft: c.N(420, 6000)}
+	h := &H{c: c, coqLeft: c.N(300, 6000)}
 	var rp caseIn
 	if c.LoadReplay(&rp) {
 		rp.data, _ = hex.DecodeString(rp.Hex)
@@ -754,7 +754,7 @@ func main() {
 		j := c.Rng.Intn(i + 1)
 		perm[i], perm[j] = perm[j], perm[i]
 	}
-	coqEvery := nCorpus / c.N(150, 2000)
+	coqEvery := nCorpus / c.N(110, 2000)
 	if coqEvery < 1 {
 		coqEvery = 1
 	}
